@@ -3,6 +3,7 @@
 import json
 from typing import Iterable, Optional, Union
 
+from .._string_utils import parse_block_string
 from .._utils import classdispatch
 from . import ast as _ast
 
@@ -501,8 +502,19 @@ class ASTPrinter:
         if desc is None or not self.include_descriptions:
             return formatted
 
-        desc_str = _block_string(desc.value, self.indent, True)
+        if _is_printable_as_block_string(desc.value):
+            desc_str = _block_string(desc.value, self.indent, True)
+        else:
+            desc_str = json.dumps(desc.value, ensure_ascii=False)
         return _join([desc_str, formatted], "\n")
+
+
+def _is_printable_as_block_string(value: str) -> bool:
+    # A block string can only carry a value which is left unchanged by the
+    # block string parsing algorithm and has no characters requiring escapes.
+    return value == parse_block_string(value) and not any(
+        char < " " and char not in "\t\n" for char in value
+    )
 
 
 def _wrap(start: str, maybe_string: Optional[str], end: str = "") -> str:
